@@ -233,8 +233,12 @@ Definition agree_C11 (c : c11_case) : N :=
     (9%N, opt_close (close_rel (1 # 1000) (1 # 10000)) (c11_vent_model c) (vent_model m));
     (* with unique space ids (theorem C11_vent_rates_agree) the reported rate is the one the U-value
        calculation uses *)
+    (* both divide the same flow by the same volume rounded to 0.01 m3; the two sums are taken in different
+       orders, so the rounded volumes may differ by one step: relative 0.01 / V on the rate *)
     (10%N, if Nat.eqb (length (space_keys m)) (length (m_spaces m))
-           then opt_close (close_rel (1 # 100000) (1 # 1000000)) (c11_vent_props c) (c11_vent_model c) else true);
+           then let v := vol_inh_net_model m in
+                let rel := if qltb (1 # 100) v then (1 # 100000) + (2 # 100) / v else 1 in
+                opt_close (close_rel rel (1 # 1000000)) (c11_vent_props c) (c11_vent_model c) else true);
     (11%N, qeqb (gp_co100 g) (c_o_100 m));
     (12%N, match c11_top c with (a, cp, vn, vg) =>
              qeqb a (gp_aref g) && qeqb cp (gp_compactness g) && qeqb vn (gp_vol_net g) && qeqb vg (gp_vol_gross g) end);
